@@ -583,3 +583,72 @@ func init() {
 		ret(st, f, B(ok))
 	}
 }
+
+// sync.Map / sync.Mutex: the interpreter is single-threaded, so mutexes are
+// no-ops and sync.Map is an ordinary map kept behind the sync.Map's address.
+func (st *State) syncMapObj(p Ptr, create bool) MapRef {
+	b := st.block(p.Blk)
+	if b == nil {
+		st.throwNilDeref()
+	}
+	if c, ok := b.Cells[p.Off]; ok {
+		if m, ok := c.V.(MapRef); ok {
+			return m
+		}
+	}
+	if !create {
+		return 0
+	}
+	nb := st.newBlock(8, nil, 1, BMap)
+	st.blocks[nb].M = &MapObj{}
+	st.noteWrite(p.Blk)
+	wb := st.wblock(p.Blk)
+	if wb.Cells == nil {
+		wb.Cells = map[int64]Cell{}
+	}
+	wb.Cells[p.Off] = Cell{8, MapRef(nb)}
+	if wb.MaxCell < 8 {
+		wb.MaxCell = 8
+	}
+	return MapRef(nb)
+}
+
+func init() {
+	nop := func(st *State, f *Frame, c *ssa.Call, a []Value) { ret(st, f, nil) }
+	for _, n := range []string{"(*sync.Mutex).Lock", "(*sync.Mutex).Unlock", "(*sync.RWMutex).Lock", "(*sync.RWMutex).Unlock", "(*sync.RWMutex).RLock", "(*sync.RWMutex).RUnlock"} {
+		intrinsics[n] = nop
+	}
+	intrinsics["(*sync.Map).Load"] = func(st *State, f *Frame, c *ssa.Call, a []Value) {
+		m := st.syncMapObj(a[0].(Ptr), false)
+		if m != 0 {
+			mo := st.mapObj(m)
+			st.noteRead(int(m))
+			if i := st.mapFind(mo, a[1]); i >= 0 {
+				ret(st, f, Tuple{mo.Entries[i].V, B(true)})
+				return
+			}
+		}
+		ret(st, f, Tuple{Iface{}, B(false)})
+	}
+	intrinsics["(*sync.Map).Store"] = func(st *State, f *Frame, c *ssa.Call, a []Value) {
+		m := st.syncMapObj(a[0].(Ptr), true)
+		st.mapUpdate(m, a[1], a[2])
+		ret(st, f, nil)
+	}
+	intrinsics["(*sync.Map).LoadOrStore"] = func(st *State, f *Frame, c *ssa.Call, a []Value) {
+		m := st.syncMapObj(a[0].(Ptr), true)
+		mo := st.mapObj(m)
+		if i := st.mapFind(mo, a[1]); i >= 0 {
+			ret(st, f, Tuple{mo.Entries[i].V, B(true)})
+			return
+		}
+		st.mapUpdate(m, a[1], a[2])
+		ret(st, f, Tuple{a[2], B(false)})
+	}
+	intrinsics["(*sync.Map).Delete"] = func(st *State, f *Frame, c *ssa.Call, a []Value) {
+		if m := st.syncMapObj(a[0].(Ptr), false); m != 0 {
+			st.mapDelete(m, a[1])
+		}
+		ret(st, f, nil)
+	}
+}
